@@ -353,6 +353,18 @@ func (b *builder) primAs(t *gen.Tree, r int, group []*gen.Tree) interface{} {
 	return b.chain(v, r, "a primitive")
 }
 
+// nCfg is a rebranded Config ("type MyConfig ucfg.Config", CHANGELOG 0.1.0).
+type nCfg ucfg.Config
+
+// rebrand passes every second embedded config as a pointer to the rebranded type.
+func (b *builder) rebrand(t *gen.Tree, c *ucfg.Config) interface{} {
+	if (t.R/8)%2 == 1 {
+		b.use("*Config rebranded (type T ucfg.Config)")
+		return (*nCfg)(c)
+	}
+	return c
+}
+
 // commonType returns the Go type shared by all values, if there is one.
 func commonType(vals []interface{}) (reflect.Type, bool) {
 	if len(vals) == 0 || vals[0] == nil {
@@ -435,7 +447,7 @@ func (b *builder) build(t *gen.Tree) (interface{}, error) {
 				return nil, err
 			}
 			b.use("*Config")
-			out = c
+			out = b.rebrand(t, c)
 			break
 		}
 		vals, err := b.children(t)
@@ -475,6 +487,15 @@ func (b *builder) build(t *gen.Tree) (interface{}, error) {
 			b.use("*map")
 			out = &m
 		case 5:
+			if (t.R/8)%2 == 1 {
+				m := make(map[nStr]interface{}, len(t.Keys))
+				for i, k := range t.Keys {
+					m[nStr(k)] = vals[i]
+				}
+				b.use("map[named string type]interface{}")
+				out = m
+				break
+			}
 			b.use("named map")
 			out = nMap(generic())
 		case 6:
@@ -505,7 +526,7 @@ func (b *builder) build(t *gen.Tree) (interface{}, error) {
 				return nil, err
 			}
 			b.use("*Config(list)")
-			out = c
+			out = b.rebrand(t, c)
 			break
 		}
 		vals, err := b.children(t)
